@@ -193,8 +193,9 @@ struct PolicyOps {
 
     // C12: the real generator's text for one method (slot >= 0) or for the
     // whole policy (slot < 0); the values the "compiled" program uses
-    virtual std::string gen_offsets(int slot) {
+    virtual std::string gen_offsets(int slot, bool fresh_generator) {
         (void)slot;
+        (void)fresh_generator;
         return "";
     }
     virtual void set_offsets(
